@@ -2219,6 +2219,37 @@ fn hup_stream(seed: u64, n: u64, cov: &mut Coverage, out: &mut dyn Write) -> u64
         lines += 1;
         let Some(mut st) = st else { continue };
         let mut ops: Vec<Op> = vec![];
+        if rng.chance(40) {
+            // an append from the leader of the stored term whose commit index covers its (possibly
+            // membership-changing) entries: committed but neither persisted nor applied when the node campaigns
+            let last = snap.0 + k;
+            let mut m = Message::default();
+            m.set_msg_type(MessageType::MsgAppend);
+            m.from = if id == 1 { 2 } else { 1 };
+            m.to = id;
+            m.term = 1;
+            m.index = last;
+            m.log_term = 1;
+            let extra = 1 + rng.below(2);
+            let mut es = vec![];
+            for j in 0..extra {
+                let mut e = Entry::default();
+                e.index = last + 1 + j;
+                e.term = 1;
+                if rng.chance(60) {
+                    let mut cc = ConfChangeV2::default();
+                    cc.mut_changes().push(single(ConfChangeType::AddNode, 4 + rng.below(2)));
+                    e.set_entry_type(EntryType::EntryConfChangeV2);
+                    e.data = cc.write_to_bytes().unwrap().into();
+                } else {
+                    e.data = vec![b'a', j as u8].into();
+                }
+                es.push(e);
+            }
+            m.commit = last + rng.below(extra + 1);
+            m.set_entries(es.into());
+            ops.push(Op::Step(m));
+        }
         match rng.below(4) {
             0 => ops.push(Op::Campaign),
             1 => {
